@@ -15,8 +15,8 @@ func init() {
 	Props["C17"] = Prop{
 		Title: "zapio.Writer logs exactly the lines of the byte stream, however it is chunked",
 		Fn:    checkC17,
-		Explanation: "The core claim (all streams × all partitions) is a statement about runtime values and is NOT decided. Decided are its structural necessary conditions: Write reports len of the original parameter with a nil error on every path and its loop feeds writeLine's result back until empty; writeLine splits at the first newline (bytes.IndexByte(line,'\\n') with line[:i] / line[i+1:], or bytes.Cut(line, <constant \"\\n\">) - the split is modelled, not matched textually) and returns nil (after buffering the whole fragment) or the strict suffix after that newline; nothing is buffered or logged unless the level is enabled; the direct-log fast path is taken only when nothing is buffered, otherwise the fragment is appended before the flush; flush(true) comes only from writeLine and flush(false) only from Sync, Close is Sync; flush logs iff allowEmpty or something is buffered and always resets the buffer afterwards; the writer copies what it keeps (bytes.Buffer.Write / string conversion) and never stores the caller's slice. " +
-			"NOT decided: equality of the logged messages with the stream's lines for all partitions.",
+		Explanation: "The core claim (all streams × all partitions) is a statement about runtime values and is NOT decided as a whole. Decided, by exploring every path of Write (its helpers inline, the loop walked for up to three newline-delimited pieces of one chunk, every condition that is not evident forked) and matching the sequence of effects against the line protocol: the level gate is asked afresh on every call and a disabled level returns (len(p), nil) without buffering or logging; each piece is searched for its first newline; without one the whole piece is appended (copied) to the buffer and the loop ends; with one, the part before it is the line - logged directly exactly when nothing is buffered, otherwise appended, the buffer logged and then reset - and the next piece is exactly the part after that newline; (len(p), nil) with p the original parameter is returned on every path; the caller's slice is never stored. Sync logs the pending partial line exactly when the buffer is non-empty (no empty message for a trailing newline) and resets it; Close goes through Sync. Whichever functions the code is split into does not matter. " +
+			"NOT decided: chunks with more than three newlines are covered only in so far as the per-piece step does not depend on the piece number (it cannot: the only state carried over is the buffer); equality of the logged messages with the stream's lines as values.",
 		Assumptions: commonAssumptions,
 	}
 }
